@@ -156,6 +156,14 @@ def sum_(interp, argv):
             # sum of a collection of ones = its number of elements
             from .engine import b_len
             return b_len(interp, [v], {}, None)
+    if len(argv) == 1 and v.kind == 'seq' and v.meta.get('elem_kind') in ('int', 'mapped'):
+        # sum of a sequence of ints: an uninterpreted integer remembered with the sequence (trusted: sum() adds the elements up;
+        # contracts state what the elements are)
+        total = fresh('seqsum', Int)
+        if not hasattr(interp.ctx, 'seqsums'):
+            interp.ctx.seqsums = []
+        interp.ctx.seqsums.append((total, v))
+        return VInt(total)
     raise Undecided('sum()')
 
 
